@@ -120,6 +120,8 @@ pub struct Seen {
     pub body_ok: bool,
     pub complete: bool,
     pub tag: &'static str,
+    /// when the backend had handed the whole final response to the kernel (us since t0)
+    pub final_written_us: Option<u64>,
 }
 
 /// state shared by every thread of one cell
@@ -128,6 +130,9 @@ pub struct Shared {
     pub gates: [Gate; 2],
     pub seen: Mutex<HashMap<u64, Seen>>,
     pub steps: Mutex<Vec<(String, u64)>>,
+    /// (us since t0, event-loop iteration counter of the old worker), sampled while the case runs:
+    /// a logical clock that tells a worker that was not scheduled from one that did not act
+    pub loop_samples: Mutex<Vec<(u64, u64)>>,
     pub fleet_stop: AtomicBool,
     pub burst_go: AtomicBool,
     pub abort: AtomicBool,
@@ -148,6 +153,7 @@ impl Shared {
             gates: [Gate::new(), Gate::new()],
             seen: Mutex::new(HashMap::new()),
             steps: Mutex::new(Vec::new()),
+            loop_samples: Mutex::new(Vec::new()),
             fleet_stop: AtomicBool::new(false),
             burst_go: AtomicBool::new(false),
             abort: AtomicBool::new(false),
@@ -174,6 +180,14 @@ impl Shared {
     }
     pub fn timeline(&self) -> Value {
         Value::Array(self.steps.lock().unwrap().iter().map(|(n, t)| json!({"step": n, "at_us": t})).collect())
+    }
+    /// event-loop iterations the old worker completed between two instants (None: not sampled)
+    pub fn loop_iterations_between(&self, from_us: u64, to_us: u64) -> Option<u64> {
+        let s = self.loop_samples.lock().unwrap();
+        let at = |t: u64| s.iter().rev().find(|(ts, _)| *ts <= t).map(|(_, i)| *i);
+        // the sample at or before `from` undercounts nothing: iterations only grow
+        let first_after = s.iter().find(|(ts, _)| *ts >= from_us).map(|(_, i)| *i)?;
+        Some(at(to_us)?.saturating_sub(first_after))
     }
     pub fn fresh_id(&self) -> u64 {
         self.next_id.fetch_add(1, Ordering::SeqCst)
@@ -309,6 +323,7 @@ pub fn http_backend_handler(sh: Arc<Shared>, tag: &'static str) -> impl Fn(TcpSt
                         if r.is_err() {
                             return;
                         }
+                        sh.seen.lock().unwrap().entry(id).or_default().final_written_us = Some(sh.us());
                     }
                 }
             }
@@ -1103,7 +1118,7 @@ fn run_h2(sh: &Shared, plan: &InflightPlan, addr: SocketAddr, park: &dyn Fn(&Sha
     let detail = json!({
         "streams": streams.iter().map(|(sid, s)| json!({"stream": sid, "request_id": s.id, "parked": if s.mid { "mid_download" } else { "before_headers" },
             "status": s.status, "body_bytes": s.got, "expected": plan.resp_len, "keystream_ok": s.ok, "end_stream": s.done, "rst_stream": s.rst})).collect::<Vec<_>>(),
-        "goaway_frames": goaways, "connection": closed, "ping_sent_after_1s_without_progress": ping_sent.is_some(), "ping_ack_after_ms": ping_acked_ms, "last_frames": c.trace_tail(24),
+        "goaway_frames": goaways, "connection": closed, "ms_from_release_to_end": released_at.map(|r| r.elapsed().as_millis() as u64), "ping_sent_after_1s_without_progress": ping_sent.is_some(), "ping_ack_after_ms": ping_acked_ms, "last_frames": c.trace_tail(24),
     });
     let tag = streams.values().find_map(|s| s.tag.clone());
     let fate = if good == total {
